@@ -478,7 +478,14 @@ where
         .map(|i| {
             let mut rng = rng_for(ctx.seed, stream_base.wrapping_mul(1_000_003).wrapping_add(i));
             let mut st = Stats::new();
-            f(i, &mut rng, &mut st);
+            // a panic that escapes a workload (library code called outside the places that expect
+            // panics) must not take the other shards' observations with it: what this shard saw
+            // so far is kept, the shard itself is inconclusive
+            let r = std::panic::catch_unwind(std::panic::AssertUnwindSafe(|| f(i, &mut rng, &mut st)));
+            if let Err(e) = r {
+                let msg = e.downcast_ref::<String>().cloned().or_else(|| e.downcast_ref::<&str>().map(|s| s.to_string())).unwrap_or_else(|| "panic".into());
+                st.inconclusive.push(format!("workload shard {} ended in a panic: {}", i, msg.chars().take(200).collect::<String>()));
+            }
             st
         })
         .collect();
